@@ -111,7 +111,7 @@ pub fn corpus_ratio(name: &str) -> Result<(f64, usize, usize, usize), String> {
 pub fn plan(tier: Tier) -> Plan {
     let mut p = Plan::new("C12", "model_checking");
     let thorough = tier.thorough();
-    p.rule = "every key set of U_ab3, U_abc2, U_raw2 as a set and as a map (values i, 7, 3i+1, boundary values) under every cache geometry of {0x0,1x1,1x2,2x1,2x2,1x3,3x3,10000x2}; per build the eviction/rejection counters (hook H2) are read and the nodes come from the independent decoder's tiling (unreachable garbage would count); if no eviction and no rejection happened: no two tiled nodes have the same (final, final output, transitions) and a set has exactly the node count of the minimal acyclic DFA of its keys (bottom-up signature hashing of the trie) minus the unstored empty-final state; always: nodes <= prefix-trie nodes; corpora clause: realised/achievable sharing > 0.5 on the shipped word/url lists (fixed evaluations, not an enumeration). non-trivial = eviction-free builds with real sharing (nodes < trie nodes)".into();
+    p.rule = "every key set of U_ab3, U_abc2, U_raw2 as a set and as a map (values i, 7, 3i+1, boundary values) under every cache geometry of {0x0,1x1,1x2,2x1,2x2,1x3,3x3,10000x2}; per build the eviction/rejection counters (hook H2) are read and the nodes come from the independent decoder's tiling (unreachable garbage would count); if no eviction and no rejection happened: no two tiled nodes have the same (final, final output, transitions) and a set has exactly the node count of the minimal acyclic DFA of its keys (bottom-up signature hashing of the trie) minus the unstored empty-final state; always: nodes <= prefix-trie nodes; twin families: two or three equivalent subtrees whose root has 1..256 transitions (across the index threshold), as sets and as maps; corpora clause: realised/achievable sharing > 0.5 on the shipped word/url lists (fixed evaluations, not an enumeration). non-trivial = eviction-free builds with real sharing (nodes < trie nodes)".into();
     p.assumptions = vec![
         "'equivalent nodes' is checked as identical (final, final output, [(input, output, target address)]); with targets already deduplicated bottom-up this is language equivalence".into(),
         "data/wiki-urls-100000 is an emptied file in this checkout and is skipped".into(),
@@ -184,6 +184,34 @@ pub fn plan(tier: Tier) -> Plan {
             }
         }));
     }
+    // twin wide nodes: two (three) equivalent subtrees whose root has n
+    // transitions, n across the index threshold (32/33) and up to 256
+    for n in [1usize, 2, 31, 32, 33, 34, 64, 200, 256] {
+        p.units.push(unit("twin-wide-subtrees", format!("twin fan-out {}", n), move |st, rep| {
+            for heads in [&b"ac"[..], &b"acx"[..]] {
+                for depth2 in [false, true] {
+                    let mut keys: Vec<Key> = vec![];
+                    for &h in heads {
+                        for i in 0..n {
+                            let b = ((i * 256) / n) as u8;
+                            let mut k = vec![h, b];
+                            if depth2 {
+                                k.push(b'q');
+                            }
+                            keys.push(k);
+                        }
+                    }
+                    keys.sort();
+                    st.count("twin_cases", 1);
+                    do_case(&Pat::Zero.apply(&keys), (10_000, 2), st, rep);
+                    do_case(&Pat::Zero.apply(&keys), (100, 2), st, rep);
+                    // as a map whose values repeat with period n, the twins are equivalent as transducers too
+                    let kvs: Vec<Kv> = keys.iter().enumerate().map(|(i, k)| (k.clone(), (i % n) as u64)).collect();
+                    do_case(&kvs, (10_000, 2), st, rep);
+                }
+            }
+        }));
+    }
     let corpora: Vec<&'static str> = if thorough { vec!["words-10000", "wiki-urls-10000", "words-100000"] } else { vec!["words-10000", "wiki-urls-10000"] };
     for c in corpora {
         p.units.push(unit("corpora-sharing-ratio", format!("corpus {}", c), move |st, rep| {
@@ -201,6 +229,6 @@ pub fn plan(tier: Tier) -> Plan {
             }
         }));
     }
-    p.must_be_nonzero = vec!["corpora_evaluated".into()];
+    p.must_be_nonzero = vec!["corpora_evaluated".into(), "twin_cases".into()];
     p
 }
